@@ -347,8 +347,14 @@ def bibtex_prefix(string, num_chars):
         length = 0
         brace_level = 0
         if num_chars > 0:
-            for char, brace_level in scan_bibtex_string(string):
+            for char, _ in scan_bibtex_string(string):
                 yield char
+                # a special character may itself contain braces
+                for brace in char:
+                    if brace == '{':
+                        brace_level += 1
+                    elif brace == '}' and brace_level > 0:
+                        brace_level -= 1
                 if char not in '{}':
                     length += 1
                 if length >= num_chars:
